@@ -20,7 +20,7 @@ from lib import fixrun, harness, monitors, vsgapi
 
 PROP = "C11"
 
-SHAPES = ("bare", "ids", "next", "next2", "ids_partial_on", "bare_inner_next", "bare_inner_idoff", "wrap_all", "remark", "two_regions")
+SHAPES = ("bare", "ids", "next", "next2", "ids_partial_on", "bare_inner_next", "bare_inner_idoff", "wrap_all", "remark", "two_regions", "ids_overlap", "ids_repeat", "next_in_ids", "ids_then_bare_on")
 
 
 # ----------------------------------------------------------------------------- reference model
@@ -114,6 +114,22 @@ def place_tags(lines, ids, shape, rng):
         return [(a, ind + "-- vsg_off"), (c, ind + "-- vsg_off " + P), (b, ind + "-- vsg_on")], pick
     if shape == "wrap_all":
         return [(0, "-- vsg_off"), (n, "-- vsg_on")], pick
+    if shape == "ids_overlap":
+        # the same id switched off by two overlapping tags, then everything switched on by one tag
+        q = sorted(set(pick[:1] + rng.sample(ids, min(len(ids), 2))))
+        c = rng.randrange(a + 1, max(a + 2, b))
+        allp = sorted(set(pick) | set(q))
+        return [(a, ind + "-- vsg_off " + P), (c, ind + "-- vsg_off " + " ".join(q)), (b, ind + "-- vsg_on " + " ".join(allp))], allp
+    if shape == "ids_repeat":
+        return [(a, ind + "-- vsg_off " + P + " " + pick[0]), (b, ind + "-- vsg_on " + P)], pick
+    if shape == "next_in_ids":
+        if b - a < 3:
+            b = min(n - 1, a + 4)
+        c = rng.randrange(a + 1, max(a + 2, b))
+        q = rng.sample(ids, min(len(ids), 2))
+        return [(a, ind + "-- vsg_off " + P), (c, ind + "-- vsg_disable_next_line " + " ".join(q)), (b, ind + "-- vsg_on " + P)], sorted(set(pick) | set(q))
+    if shape == "ids_then_bare_on":
+        return [(a, ind + "-- vsg_off " + P), (b, ind + "-- vsg_on")], pick
     if shape == "two_regions":
         c = rng.randrange(b, min(n - 1, b + 6) + 1)
         d = rng.randrange(c, min(n - 1, c + 8) + 1)
@@ -203,7 +219,8 @@ def run_case(case):
             if isinstance(ln, int) and is_in(m, ln, rid) and not is_boundary(m, ln):
                 n_in += 1
                 where = "tokens-on-that-line" if (span is None or span[0] <= ln <= span[1]) else "tokens-on-another-line"
-                viol.append({"key": "%s:%s:reported-on-suppressed-line:%s" % (case["shape"], "named-rule" if rid in named else "unnamed-rule", where), "detail": {"rule": rid, "line": ln, "solution": sol, "span": span, "tags": placement, "line_text": tagged[ln - 1][:100]}})
+                shape_key = case["shape"] if where == "tokens-on-that-line" else "any-shape"
+                viol.append({"key": "%s:%s:reported-on-suppressed-line:%s" % (shape_key, "named-rule" if rid in named else "unnamed-rule", where), "detail": {"rule": rid, "line": ln, "solution": sol, "span": span, "tags": placement, "line_text": tagged[ln - 1][:100]}})
         n_supp = sum(1 for rid, ln, sol, span in vn if isinstance(ln, int) and is_in(m, ln, rid))
         if case["shape"] == "wrap_all" and vt:
             viol.append({"key": "wrap_all:report-not-empty", "detail": {"first": vt[0][:3]}})
